@@ -309,6 +309,8 @@ SHAPE_FUNCTIONS = [
     ('gatt_server', 'Server', 'register_eatt'),
     ('gatt_client', 'Client', '__init__'),
     ('gatt_client', 'Client', 'on_disconnection'),
+    ('smp', 'Session', '__init__'),               # which listeners a session registers on the connection
+    ('smp', 'Session', 'on_pairing_failure'),     # ... and that a failed session does not remove them early
     ('smp', 'Session', 'on_disconnection'),
     ('smp', 'Manager', 'on_session_end'),
     ('sdp', 'Client', 'on_channel_close'),
@@ -416,6 +418,9 @@ def shapes(repo):
             raise TranslationError(f'{module}.{clsname}.{fname}: expected exactly one definition, found {len(funcs)}')
         toks = []
         _shape_stmts(funcs[0].body, '', toks)
+        if fname == '__init__':
+            # of a constructor only the listener registrations matter (and the branch they sit in)
+            toks = [t for t in toks if '.on(' in t or '.once(' in t]
         name = f'{module}.{clsname}.{fname}' if clsname else f'{module}.{fname}'
         out.append((name, toks))
     return out
